@@ -296,14 +296,16 @@ pub fn bulk_scenario_strategy(max_per_tick: usize, max_ticks: usize, faults: boo
         let size = if tiny { (0u32..6).boxed() } else { (4u32..48).boxed() };
         (prop_oneof![6 => 0u8..4, 1 => 0u8..64], prop_oneof![40 => Just(1u8), 40 => Just(2u8), 10 => Just(0u8), 1 => Just(3u8)], size).prop_map(|(ch, mode, size)| SendSpec { ch, mode, size })
     };
-    let dt = || prop_oneof![Just(2_000u64), Just(5_000u64), Just(16_000u64)];
+    // (the longer cadences let slow start ramp up while the link is still faulty: at 2-16 ms per tick nearly all of a
+    // bulk history is transmitted in the fair phase)
+    let dt = || prop_oneof![2 => Just(2_000u64), 2 => Just(5_000u64), 3 => Just(16_000u64), 3 => Just(50_000u64), 2 => Just(120_000u64)];
     let plain_tick = (dt(), proptest::collection::vec(bulk_send(false), 20..max_per_tick.max(21)), any::<bool>()).prop_map(|(dt_us, sends, rev)| (dt_us, sends, rev));
     // bursts of packets so small that well over a hundred of them fit one frame
     let tiny_tick = (dt(), proptest::collection::vec(bulk_send(true), 100..(2 * max_per_tick).max(320)), any::<bool>()).prop_map(|(dt_us, sends, rev)| (dt_us, sends, rev));
     // parent leads at the field widths of the datagram headers: a Reliable packet on channel c, then exactly lead-1
     // packets none of which is Reliable on c (one Reliable packet on another channel among the last hundred keeps the
     // window parent lead short), then a small packet on c
-    let lead_tick = (dt(), 0u8..4, prop_oneof![1 => Just(126u32), 2 => Just(127), 3 => Just(128), 2 => Just(129), 1 => Just(254), 2 => Just(255), 4 => Just(256), 2 => Just(257), 1 => Just(258)], proptest::collection::vec(bulk_send(false), 260), 1u32..100, any::<bool>(), 4u32..60).prop_map(|(dt_us, c, lead, fill, back, rev, psize)| {
+    let lead_tick = (dt(), 0u8..4, prop_oneof![1 => Just(126u32), 2 => Just(127), 4 => Just(128), 2 => Just(129), 1 => Just(254), 2 => Just(255), 6 => Just(256), 2 => Just(257), 1 => Just(258)], proptest::collection::vec(bulk_send(false), 260), 1u32..100, any::<bool>(), 4u32..60).prop_map(|(dt_us, c, lead, fill, back, rev, psize)| {
         let d = (c + 1) % 4;
         let mut sends = vec![SendSpec { ch: c, mode: 3, size: 8 }];
         for (i, mut f) in fill.into_iter().take(lead as usize - 1).enumerate() {
@@ -318,7 +320,7 @@ pub fn bulk_scenario_strategy(max_per_tick: usize, max_ticks: usize, faults: boo
         sends.push(SendSpec { ch: c, mode: 1, size: psize });
         (dt_us, sends, rev)
     });
-    let bulk_tick = prop_oneof![6 => plain_tick, 2 => tiny_tick, 2 => lead_tick].prop_map(|(dt_us, sends, rev)| {
+    let bulk_tick = prop_oneof![5 => plain_tick, 2 => tiny_tick, 3 => lead_tick].prop_map(|(dt_us, sends, rev)| {
         let a = EpAct { step: true, sends, flushes: 1 };
         let b = EpAct { step: true, sends: Vec::new(), flushes: 1 };
         Tick { dt_us, acts: if rev { [b, a] } else { [a, b] } }
